@@ -147,6 +147,10 @@ def build_prior(case):
             prior = tj.JokerPrior(pars=None, poly_trend=poly_arg, v0_offsets=offs or None, model=model)
         else:
             prior = tj.JokerPrior(pars=arg, poly_trend=poly_arg, v0_offsets=offs or None, model=model)
+    try:
+        prior._vt_offsets_arg = offs or None       # (harness bookkeeping: the very list object that was passed in)
+    except Exception:
+        pass
     return prior
 
 
@@ -201,6 +205,15 @@ def prior_body_factory(ctx):
                 ["dv0_%d" % (i + 1) for i in range(case["noff"])]
             if list(prior.par_names) != want:
                 raise Violation("par_names are not (nonlinear, linear, offsets)", got=list(prior.par_names), want=want)
+            # what was validated at construction is what the prior keeps: changing the caller's own offset list afterwards
+            # must not change the accepted prior
+            offs_arg = getattr(prior, "_vt_offsets_arg", None)
+            if isinstance(offs_arg, list):
+                offs_arg.append("something appended by the caller later")
+                if prior.n_offsets != case["noff"] or list(prior.par_names) != want:
+                    raise Violation("an accepted prior changes when the caller's v0_offsets list is modified afterwards (its "
+                                    "content was only validated at construction)", n_offsets=prior.n_offsets, par_names=list(prior.par_names))
+                offs_arg.pop()
             data = [mk_data(4 + k, 10 + k) for k in range(case["noff"] + 1)]
             with ctx.sut("marginal_ln_likelihood with an accepted prior"):
                 ll = tj.TheJoker(prior).marginal_ln_likelihood(data if case["noff"] else data[0],
